@@ -732,16 +732,17 @@ def inLoop (env : Env) : Nat → SeqVars → InOpts → List Blk → Nat → St 
       | (.oom, st2) => (.oom, st2)
 
 /-- the class a dtml-raise raises: by name (unknown names give RuntimeError), or by expression -/
-def raiseClass (env : Env) : Nat → Text → Option Expr → St → Text × St
-  | 0, _, _, st => ("RuntimeError".toList, st)
+def raiseClass (env : Env) : Nat → Text → Option Expr → St → Option Text × St
+  | 0, _, _, st => (none, st)              -- out of fuel
   | fuel + 1, cls, clsExpr, st =>
     match clsExpr with
-    | none => (if (env.classes.lookup cls).isSome then cls else "RuntimeError".toList, st)
+    | none => (some (if (env.classes.lookup cls).isSome then cls else "RuntimeError".toList), st)
     | some e =>
       (match evalExpr env fuel e st with
-       | (.ok (.exc c _), st') => (c, st')
-       | (.ok (.str c), st') => (c, st')
-       | (_, st') => ("InvalidErrorTypeExpression".toList, st'))
+       | (.ok (.exc c _), st') => (some c, st')
+       | (.ok (.str c), st') => (some c, st')
+       | (.oom, st') => (none, st')
+       | (_, st') => (some "InvalidErrorTypeExpression".toList, st'))
 
 def renderBlk (env : Env) : Nat → Blk → St → Res (List Piece) × St
   | 0, _, st => (.oom, st)
@@ -840,25 +841,29 @@ def renderBlk (env : Env) : Nat → Blk → St → Res (List Piece) × St
        | (.ret v, st') => (.ret v, st')
        | (.oom, st') => (.oom, st'))
     | .raise_ cls clsExpr body =>
-      let (clsName, st0) := raiseClass env fuel cls clsExpr st
-      (match renderJoined env fuel body st0 with
-       | (.ok p, st1) => (.raise ⟨clsName, ustr (valOfPiece p)⟩, st1)
-       | (.ret v, st1) => (.ret v, st1)
-       | (.raise _, st1) => (.raise ⟨clsName, "Invalid Error Value".toList⟩, st1)
-       | (.oom, st1) => (.oom, st1))
+      (match raiseClass env fuel cls clsExpr st with
+       | (none, st0) => (.oom, st0)
+       | (some clsName, st0) =>
+         (match renderJoined env fuel body st0 with
+          | (.ok p, st1) => (.raise ⟨clsName, ustr (valOfPiece p)⟩, st1)
+          | (.ret v, st1) => (.ret v, st1)
+          | (.raise _, st1) => (.raise ⟨clsName, "Invalid Error Value".toList⟩, st1)
+          | (.oom, st1) => (.oom, st1)))
     | .tryFin body fin =>
       -- the finally block is rendered whatever the body did; then the pending outcome continues
-      let (r, st1) := renderJoined env fuel body st
-      (match renderJoined env fuel fin st1 with
-       | (.ok q, st2) =>
-         (match r with
-          | .ok p => join2 env p q st2
-          | .raise e => (.raise e, st2)
-          | .ret v => (.ret v, st2)
-          | .oom => (.oom, st2))
-       | (.raise e, st2) => (.raise e, st2)
-       | (.ret v, st2) => (.ret v, st2)
-       | (.oom, st2) => (.oom, st2))
+      (match renderJoined env fuel body st with
+       | (.oom, st1) => (.oom, st1)
+       | (r, st1) =>
+         (match renderJoined env fuel fin st1 with
+          | (.ok q, st2) =>
+            (match r with
+             | .ok p => join2 env p q st2
+             | .raise e => (.raise e, st2)
+             | .ret v => (.ret v, st2)
+             | .oom => (.oom, st2))
+          | (.raise e, st2) => (.raise e, st2)
+          | (.ret v, st2) => (.ret v, st2)
+          | (.oom, st2) => (.oom, st2)))
     | .try_ body handlers els =>
       (match renderJoined env fuel body st with
        | (.ok p, st1) =>
